@@ -199,3 +199,20 @@ prop("C02", lambda tier: [
      "E1: fan-out / yield ping-pong / parent-first burst / mutex wake-up / custom-steal programs on an 8-entry run queue x all schedules with <= K deviations",
      assumptions=E1_ASSUME + ["E2: x86-TSO abstract machine (per-participant FIFO store buffers, locked instructions and draining fences empty the buffer) executed over the real object code; "
                               "fence strength comes from the MYTH_VERIF_FENCE annotations in src/myth_mem_barrier_func.h; histories stay within the queue capacity (growth is unimplemented, overflow a documented fatal error)"])
+
+ASAN_BUILD = "UNIT_CFLAGS='-O1 -g -fsanitize=address,undefined -fno-omit-frame-pointer' engine/build_unit.sh %s %s"
+prop("C10", lambda tier: [
+        binc("c10", ASAN_BUILD % ("c10", "harness/c10_tls.c"), "env ASAN_OPTIONS=detect_leaks=0 build/c10/c10 --part c10 --stats {stats} --tier quick",
+             "env ASAN_OPTIONS=detect_leaks=0 build/c10/c10 --part c10 --stats {stats} --tier thorough", "E3 seqmc (bounded exhaustive sequences vs dict / live-set models, ASan+UBSan)"),
+        binc("c10e2", "E2_EXCLUDE=none engine/build_e2.sh c10e2 harness/c10_keyalloc_e2.c", "build/c10e2/c10e2 --stats {stats} --tier quick --jobs {jobs}",
+             "build/c10e2/c10e2 --stats {stats} --tier thorough --jobs {jobs}", "E2 unitmc (explicit-state, access granularity, SC and x86-TSO)"),
+        e1("c10m", "harness/c10_migrate.c")],
+     "E3: set(k) then get(all 1024) for every key, ordered key pairs, all set-sequences of length <=3/4 over 13 representative keys x 3 values vs a dict, out-of-range indices, "
+     "all key-table create/delete histories to depth 6/7 + exhaustion at 1024; E2: every interleaving of create / delete-own programs of 2-3 participants on the real key table; "
+     "E1: threads sharing a key across yields and workers, concurrent key creation, x all schedules with <= K deviations")
+prop("C11", lambda tier: [
+        binc("c11", ASAN_BUILD % ("c11", "harness/c10_tls.c"), "env ASAN_OPTIONS=detect_leaks=0 build/c11/c11 --part c11 --stats {stats} --tier quick",
+             "env ASAN_OPTIONS=detect_leaks=0 build/c11/c11 --part c11 --stats {stats} --tier thorough", "E3 seqmc (bounded exhaustive key subsets x destructor masks vs expected call list; ASan+UBSan; forked child per case)")],
+     "every single key 0..1023 with destructor and value; every subset of size <=2/3 of 13 representative keys x destructor mask x NULL/non-NULL mask, on a private tree and key table; "
+     "whole library on one worker: 4 key sets x {return, myth_exit, cancel+testcancel}",
+     assumptions=["the unit harness #includes src/myth_tls_func.h and calls myth_tls_tree_set / myth_tls_tree_fini exactly as thread creation and exit do", "AddressSanitizer turns any read outside the 1024-entry key table into a verdict"])
